@@ -307,7 +307,13 @@ pub fn run_c17(cfg: &Cfg) -> i32 {
                 database.filter_sets.insert(format!("FLTR-VH-C{c}"), if c < 16 { format!("FLTR-VH-C{}", c + 1) } else { "<^AS65000$>".into() });
             }
             let fs = |n: &str| Expr::FilterSet(n.to_string());
-            let bad = match if idx < 6 { idx as usize } else { r.below(6) } {
+            // an as-set of 150 members none of which has a route object: 300 "key not found"
+            // answers that the evaluator logs and skips; and an AS with IPv4 routes only, whose
+            // evaluation skips one such answer itself
+            database.as_sets.insert("AS-VH-BIG".into(), (0..150u32).map(|k| irrfake::db::AsSetMember::As(4_200_100_000 + k)).collect());
+            database.ases.insert(64_999, irrfake::db::AsRoutes { v4: vec![(0xC633_6400, 24)], v6: vec![] });
+            let bad = match if idx < 6 { idx as usize } else { r.below(7) } {
+                6 => Expr::AsSet("AS-VH-BIG".into()),
                 0 => fs("FLTR-VH-REGEX"),
                 1 => fs("FLTR-VH-C1"),
                 2 => fs("FLTR-VH-ERR"),
@@ -321,6 +327,7 @@ pub fn run_c17(cfg: &Cfg) -> i32 {
                 exprs.push(bad.clone());
             }
             exprs.push(fs("FLTR-VH-GOOD"));
+            exprs.push(Expr::AsNum(64_999));
             exprs.push(Expr::Or(Box::new(fs("FLTR-VH-GOOD")), Box::new(fs("FLTR-VH-GOOD"))));
             rep.count("saturation_sequences");
             rep.count_n("saturation_repetitions", m as u64);
